@@ -7,6 +7,7 @@ import (
 	"reflect"
 	"runtime"
 	"runtime/metrics"
+	"sort"
 
 	"verifsim/core"
 	"verifsim/gen"
@@ -30,8 +31,8 @@ func init() {
 		Quick: 6000, Thorough: 600000,
 		Run:        runC07,
 		Rule:       "one run = one generated (type, value) whose encoding E decodes; evaluations = individual faulted decodes: every prefix of E (exhaustive), 6 byte substitutions at every offset (all offsets up to 512 bytes, sampled beyond), every length prefix at every nesting level inflated to 13 values in minimal and padded form, every varint re-encoded over-long, wire-type swaps of every declared field, a foreign field of each wire type and of 3 undeclared numbers inserted at every field boundary of every nesting level, decodes into a different type, random strings. non-trivial = E has at least 2 bytes; distinct = distinct hash of (type, E)",
-		FaultKinds: []string{"tear(prefix)", "rot(byte-substitution)", "length-inflation", "overlong-varint", "wire-type-swap", "foreign-field:varint", "foreign-field:fixed64", "foreign-field:varlen", "foreign-field:fixed32", "foreign-field-nested-level", "cross-type-decode", "random-bytes", "cut-inside-length-prefix", "cut-inside-embedded-message"},
-		ProbeNames: []string{"messages", "roundtrip-precondition-failed(skipped)", "scan-checked", "alloc-precise-samples", "levels>1", "torn-input-accepted-as-value", "torn-input-rejected", "rot-accepted", "rot-rejected", "inflated-rejected", "E>=128B", "E>=1KiB"},
+		FaultKinds: []string{"tear(prefix)", "rot(byte-substitution)", "length-inflation", "overlong-varint", "overflow-varint(10th byte > 1)", "wire-type-swap", "foreign-field:varint", "foreign-field:fixed64", "foreign-field:varlen", "foreign-field:fixed32", "foreign-field-nested-level", "cross-type-decode", "random-bytes", "cut-inside-length-prefix", "cut-inside-embedded-message"},
+		ProbeNames: []string{"messages", "roundtrip-precondition-failed(skipped)", "scan-checked", "scan-vs-skip-checked", "alloc-precise-samples", "levels>1", "torn-input-accepted-as-value", "torn-input-rejected", "rot-accepted", "rot-rejected", "inflated-rejected", "E>=128B", "E>=1KiB"},
 		Real:       []string{"proto.Unmarshal, proto.Parse, proto.Scan, RawValue methods compiled from /repo's working tree (uninstrumented)"},
 		Model:      []string{"storage/transport medium: fault operators over the encoded bytes", "reference protobuf wire parser and schema walker (verifsim/ref) used to locate lengths, varints and field boundaries and to build foreign fields"},
 		Assumptions: []string{
@@ -120,6 +121,31 @@ func (c *c07Ctx) decode(in []byte, op string) (reflect.Value, error, bool) {
 	if !bytes.Equal(buf, in) {
 		fail("input-modified", "input-modified", "proto.Unmarshal modified its input (%s)", op)
 		return x, err, false
+	}
+	// "Scan enumerates exactly the top-level fields that Unmarshal consumes":
+	// a target that declares no field consumes every top-level field by
+	// skipping it, so Scan must succeed exactly when that Unmarshal succeeds
+	// and enumerate as many fields as the reference parser sees.
+	if c.calls%3 == 0 || op == "overflow-varint" || op == "overlong-varint" || op == "scenario" {
+		var none struct{}
+		errSkip, pan1 := unmarshalNoPanic(in, &none)
+		n := 0
+		errScan, pan2 := scanNoPanic(in, func(proto.FieldNumber, proto.WireType, proto.RawValue) (bool, error) { n++; return true, nil })
+		r.Probe("scan-vs-skip-checked")
+		if pan1 != "" || pan2 != "" {
+			fail("panic", "scan-or-skip-panic:"+panicSite(pan1+pan2), "Scan / Unmarshal into an empty struct panicked on %s input %x: %s%s", op, clip(in, 200), pan1, pan2)
+			return x, err, false
+		}
+		if (errSkip == nil) != (errScan == nil) {
+			fail("scan-mismatch", "scan-vs-unmarshal-acceptance", "on this %s input Scan returns %v but Unmarshal into a struct that declares no field (so that every top-level field is consumed by skipping) returns %v\ninput=%x", op, errScan, errSkip, clip(in, 200))
+			return x, err, false
+		}
+		if errScan == nil {
+			if recs, ok := ref.ParseMessage(in); ok && len(recs) != n {
+				fail("scan-mismatch", "scan-field-count", "Scan enumerated %d top-level fields, the reference parser sees %d\ninput=%x", n, len(recs), clip(in, 200))
+				return x, err, false
+			}
+		}
 	}
 	return x, err, true
 }
@@ -425,6 +451,14 @@ func runC07(r *core.Run) {
 			}
 			r.Fault("overlong-varint")
 		}
+		// 10-byte forms whose last byte overflows 64 bits
+		for _, last := range []byte{0x02, 0x7f} {
+			m := splice(e, s.off, s.n, []byte{0xff, 0xff, 0xff, 0xff, 0xff, 0xff, 0xff, 0xff, 0xff, last})
+			if _, _, ok := c.decode(m, "overflow-varint"); !ok {
+				return
+			}
+			r.Fault("overflow-varint(10th byte > 1)")
+		}
 		// 11-byte form
 		m := splice(e, s.off, s.n, []byte{0x80, 0x80, 0x80, 0x80, 0x80, 0x80, 0x80, 0x80, 0x80, 0x80, 0x01})
 		if _, _, ok := c.decode(m, "overlong-varint"); !ok {
@@ -475,6 +509,17 @@ func runC07(r *core.Run) {
 					break
 				}
 			}
+			// undeclared numbers that collide with a declared one when truncated
+			// to 8, 16 or 24 bits (a lookup through a narrower integer type)
+			for _, d := range declaredSorted(lv.Schema) {
+				for _, k := range []uint{8, 16, 24} {
+					if a := d + 1<<k; a < 1<<29 && !lv.Schema.Declared[a] {
+						nums = append(nums, a)
+					}
+				}
+				break
+			}
+			sort.Slice(nums, func(i, j int) bool { return nums[i] < nums[j] })
 			bstep := 1
 			if len(lv.Recs) > 24 {
 				bstep = len(lv.Recs)/24 + 1
@@ -549,6 +594,15 @@ func runC07(r *core.Run) {
 }
 
 func schemaDeclares(s *ref.PSchema, num uint64) bool { return s.Declared[num] }
+
+func declaredSorted(s *ref.PSchema) []uint64 {
+	var out []uint64
+	for d := range s.Declared {
+		out = append(out, d)
+	}
+	sort.Slice(out, func(i, j int) bool { return out[i] < out[j] })
+	return out
+}
 
 func c07ScenarioFor(ty *simType, in, base []byte) *c07Scenario {
 	sc := &c07Scenario{Input: in, Base: base}
